@@ -73,7 +73,16 @@ def gen(r, bpc, nfiles, nops):
                 emit(["seek", h, n, 0])          # stay in the domain: never write beyond end-of-file
             emit(["write", h, t(), r.choice([1, 2, bpc - 1, bpc, bpc + 1, 2 * bpc + 5, 4 * bpc])])
         elif c < 0.88:
-            if r.random() < 0.3:
+            x = r.random()
+            if x < 0.25 and n > 0 and "r" != mode:
+                # aimed: position on a cluster boundary (or next to it), cut there, and use the handle at once —
+                # no seek()/tell() in between that would re-derive the cached cluster cursor
+                k = r.choice([m * bpc + d for m in range(0, n // bpc + 1) for d in (-1, 0, 1) if 0 <= m * bpc + d <= n] or [0])
+                emit(["seek", h, k, 0])
+                emit(["truncate", h, None] if r.random() < 0.6 else ["truncate", h, max(0, k - r.choice([0, 1, bpc]))])
+                emit(r.choice([["write", h, t(), r.choice([1, bpc, bpc + 1])], ["read", h, r.choice([-1, 1, bpc])],
+                               ["write", h, t(), 2 * bpc + 3]]))
+            elif x < 0.45:
                 if pos > n:
                     emit(["seek", h, n, 0])      # truncate() at a position beyond EOF extends: keep to plain cases
                 emit(["truncate", h, None])
